@@ -56,6 +56,11 @@ typedef struct vs_result {
   char label_name[VS_MAX_LABELS][32];
   uint64_t label_val[VS_MAX_LABELS];
   uint64_t trace_hash;  // hash of the decision list (distinctness)
+  // 8-byte reads of freed heap memory that were let through inside a vs_tolerate_freed_read8 bracket (judged afterwards
+  // against the committed known-findings file by the front end)
+  uint64_t tolerated_count;
+  uint64_t tolerated_pc[8];
+  int n_tolerated_pc;
   uint64_t tso_buffered, tso_hidden_reads;
   uint64_t watch_hits_t[VS_MAX_THREADS];
   uint64_t points_t[VS_MAX_THREADS];
@@ -115,6 +120,8 @@ void vs_register_stack(const void* lo, size_t len);
 void* vs_alloc_far(size_t n);
 // tolerate accesses to freed (never reused, still intact) memory: for harness classes where the CALLER keeps using a dead handle
 void vs_heap_allow_freed(int on);
+// while on (per virtual thread): an 8-byte READ of freed heap memory is recorded (pc) and execution goes on
+void vs_tolerate_freed_read8(int on);
 void vs_install_crash_handlers(void);
 
 // shadow heap
